@@ -5,7 +5,7 @@ class C18(Spec):
     prop = "C18"
     drv = "drv_c18"
     harness = "h_c18"
-    required_theorems = ("C18.parallel_eq_seq", "C18.computation_root_eq", "C18.branch_verifies")
+    required_theorems = ("C18.parallel_eq_seq", "C18.computation_root_eq", "C18.branch_verifies", "C18.multilayer_ok")
     claimed = True
     NCPUS = (1, 2, 3, 5, 8, 13, 16)
 
